@@ -818,6 +818,47 @@ def replay_shared(prop: str, data) -> int:
     return 1 if res.violations else 0
 
 
+# every name the documentation lets a user choose, in shapes that differ from the defaults in more than spelling: letters next to digits, capitals, names ending
+# in "p"/"y" (what a careless rstrip(".py") eats), a package called like one of its own modules
+NAME_SETS = [
+    {"target_package_name": "my_pkg", "client_name": "MyClient", "client_file_name": "my_client", "enums_module_name": "my_enums",
+     "input_types_module_name": "my_inputs", "fragments_module_name": "my_frags"},
+    {"target_package_name": "shop_api_v2", "client_name": "ShopV2", "client_file_name": "api_py", "enums_module_name": "vocabulary",
+     "input_types_module_name": "enums_copy", "fragments_module_name": "shared_query"},
+    {"target_package_name": "client", "client_name": "client", "client_file_name": "gateway", "fragments_module_name": "fragments2"},
+    {"target_package_name": "ShopAPI", "client_name": "HTTPClient2", "client_file_name": "Gateway", "enums_module_name": "Enums", "input_types_module_name": "inputTypes"},
+    {"target_package_name": "enums", "enums_module_name": "kinds", "input_types_module_name": "payloads_py", "fragments_module_name": "fragments_module"},
+    {"target_package_name": "_internal__api", "client_file_name": "_client", "enums_module_name": "e", "input_types_module_name": "i", "fragments_module_name": "f"},
+]
+
+CUSTOM_BASE_CLIENT = '''"""A hand-written transport: the class ariadne-codegen is told to use as base client."""
+try:
+    import httpx
+except ImportError:  # pragma: no cover
+    httpx = None
+
+if httpx is None:  # pragma: no cover
+
+    class TransportBaseClient:
+        def __init__(self, *args, **kwargs):
+            raise RuntimeError("no transport available")
+
+else:
+
+    class TransportBaseClient:
+        def __init__(self, url="", headers=None, http_client=None):
+            self.url = url
+            self.headers = headers
+            self.http_client = http_client or httpx.Client(headers=headers)
+
+        def execute(self, query, operation_name=None, variables=None, **kwargs):
+            return self.http_client.post(self.url, json={"query": query, "operationName": operation_name, "variables": variables}, **kwargs)
+
+        def get_data(self, response):
+            return response.json()["data"]
+'''
+
+
 def with_custom_operations(case: Dict[str, Any], i: int) -> None:
     """case_hook for C04: mixins on every 4th case, enable_custom_operations on every 5th."""
     with_mixins(case, i)
@@ -827,8 +868,12 @@ def with_custom_operations(case: Dict[str, Any], i: int) -> None:
         case["dirty"] = sorted(set(case.get("dirty", [])))
     if i % 7 == 3:
         case["cfg"] = dict(case["cfg"])
-        case["cfg"].update({"target_package_name": "my_pkg", "client_name": "MyClient", "client_file_name": "my_client", "enums_module_name": "my_enums",
-                            "input_types_module_name": "my_inputs", "fragments_module_name": "my_frags"})
+        case["cfg"].update(NAME_SETS[(i // 7) % len(NAME_SETS)])
+    if i % 11 == 6:
+        # a user's own base client (README: "avoid httpx" use case): two alternative definitions of the configured class, both inside a block
+        case["cfg"] = dict(case["cfg"])
+        case["cfg"].update({"base_client_name": "TransportBaseClient", "base_client_file_path": "lib/transport.py"})
+        case["extra_files"] = dict(case.get("extra_files") or {}, **{"lib/transport.py": CUSTOM_BASE_CLIENT})
     if i % 7 == 5:
         case["cfg"] = dict(case["cfg"])
         case["cfg"].update([{"include_all_inputs": False, "include_all_enums": False}, {"include_all_enums": False}, {"include_all_inputs": False}][(i // 7) % 3])
